@@ -362,6 +362,56 @@ example : streamDecode id (.list [[65, 72, 120], [70, 108]])
     (.list [none, some { predictor := some 12, colors := some 2, columns := some 2, bpc := none }])
     (ahxEnc [1, 2] 0 (pngEnc 2 2 8 [4] [[1, 2, 3, 4]])) = .ok [1, 2, 3, 4] := by decide
 
+/-! ## Round 6: the single forms of `Filter` / `DecodeParms` -/
+
+/-- `DecodeParms` as the stream dictionary writes it for a parameter value shared by all filters:
+absent, or ONE dictionary (not an array). -/
+def sharedParms : Option Parms → ParmsVal
+  | none => .absent
+  | some d => .dict d
+
+/-- The `Filter` array with ONE `DecodeParms` dictionary (or none) for all filters - the single form
+of `DecodeParms` - decodes to the payload, for chains of any length. -/
+theorem stream_shared_parms_rt {inflate : Bytes → Bytes} (stages : List (Stage inflate)) (x z : Bytes)
+    (h : ChainEncodes stages x z) (p : Option Parms) (hp : ∀ s ∈ stages, s.filt.2 = p) :
+    streamDecode inflate (.list (stages.map (·.filt.1))) (sharedParms p) z = .ok x := by
+  have hz : ∀ l : List (Stage inflate), (∀ s ∈ l, s.filt.2 = p) →
+      List.zip (l.map (·.filt.1)) (List.replicate (l.map (·.filt.1)).length p) = l.map (·.filt) := by
+    intro l hl
+    induction l with
+    | nil => rfl
+    | cons s ss ih =>
+      have h1 : s.filt.2 = p := hl s (by simp)
+      have := ih (fun s hs => hl s (by simp [hs]))
+      simp only [List.map_cons, List.length_cons, List.replicate_succ, List.zip_cons_cons, this]
+      congr 1
+      rw [← h1]
+  unfold streamDecode streamDecodeRaw getFilters
+  cases stages with
+  | nil => cases h; cases p <;> rfl
+  | cons s ss =>
+    have hc := chain_rt (s :: ss) x z h
+    have hz' := hz (s :: ss) hp
+    cases p with
+    | none =>
+      simp only [sharedParms, List.map_cons, List.isEmpty_cons, Bool.false_eq_true, if_false] at hz' hc ⊢
+      rw [hz', hc]
+    | some d =>
+      simp only [sharedParms, List.map_cons, List.isEmpty_cons, Bool.false_eq_true, if_false] at hz' hc ⊢
+      rw [hz', hc]
+
+/-- The single forms: `Filter` a name (not an array) and `DecodeParms` a dictionary or absent. -/
+theorem stream_single_rt {inflate : Bytes → Bytes} (s : Stage inflate) (x z : Bytes) (h : s.Encodes x z) :
+    streamDecode inflate (.name s.filt.1) (sharedParms s.filt.2) z = .ok x := by
+  have := stream_shared_parms_rt [s] x z (ChainEncodes.cons s [] x x z (ChainEncodes.nil x) h) s.filt.2
+    (by intro s' hs'; simp at hs'; rw [hs'])
+  unfold streamDecode streamDecodeRaw getFilters at this ⊢
+  simpa using this
+
+example : streamDecode id (.name [65, 72, 120]) .absent [52, 49, 62] = .ok [0x41] := by decide
+example : streamDecode id (.name [70, 108]) (.dict ⟨some 12, none, some 2, none⟩) [2, 1, 2, 2, 1, 1] = .ok [1, 2, 2, 3] := by decide
+example : streamDecode id (.list [[65, 72, 120], [70, 108]]) (.dict ⟨some 1, none, none, none⟩) [52, 49, 62] = .ok [0x41] := by decide
+
 /-! ## Bounded work: the fuel of every fuelled loop suffices
 
 Each decoder loop of the model takes fuel that is a linear function of the input length; the
@@ -573,6 +623,24 @@ example : streamRead true ([60, 60, 62, 62] ++ [115, 116, 114, 101, 97, 109] ++ 
     = .ok ([1, 13, 10, 13, 101, 110, 100, 10], 19) := by decide
 example : findSub ENDSTREAM_MARK ([1, 13, 10, 13, 101, 110, 100, 10] ++ ENDSTREAM_MARK) = some 8 := by decide
 
+/-- The hypothesis of the three theorems above in plain terms: it holds for EVERY byte string in
+which `endstream` does not occur (at no offset `i` does the marker start) - `endstream` has no
+border, so no occurrence can straddle the end of `d`. -/
+theorem stream_marker_free (d : Bytes) (h : ∀ i, startsWith ENDSTREAM_MARK (d.drop i) = false) :
+    findSub ENDSTREAM_MARK (d ++ ENDSTREAM_MARK) = some d.length :=
+  findSub_of_free d h
+
+example : ∀ i, i < 9 → startsWith ENDSTREAM_MARK (([101, 110, 100, 115, 116, 114, 101, 97] : Bytes).drop i) = false := by decide
+
+/-- The scan's fuel (`file.length + 1` in `streamRead`) suffices: more fuel never changes the result. -/
+theorem scan_fuel (s : Bytes) (k : Nat) : scanEndstream (s.length + 1 + k) s = scanEndstream (s.length + 1) s :=
+  scan_fuel_aux _ _ s (by omega) (by omega)
+
+example : scanEndstream 100 ([1, 10, 2] ++ ENDSTREAM_MARK ++ [10]) = [1, 10, 2] := by decide
+
+/-- In non-fallback mode the payload of `streamRead` is the one of `streamPayload` (the function the
+delimitation theorems `stream_delim*` are about), for every file, position and `Length`: the clamp
+only ever cuts at the end of the file; a negative or missing `Length` reads nothing. -/
 theorem stream_read_payload (file : Bytes) (pos : Nat) (len : Option Int) :
     (streamRead false file pos len).map Prod.fst = streamPayload file pos (len.getD 0).toNat := by
   unfold streamRead streamPayload
